@@ -56,6 +56,22 @@ Definition oracle_c09 (code : Z) (ps : list Z) (vs outs : list (list Z)) : Z :=
                     eq_list d1 (putcol rs d0 (build (length r0) (fun j =>
                        if Nat.ltb j (length a) then subsample n (monomial_mul w (- Z.of_nat i) (lnth a j)) else zlimb n))))
                  (combine (combine (seq 0 (length parts0)) parts0) outs))
+  else if code =? 9023 then
+    (* split into parts of different limb counts: part i has ex i active limbs *)
+    let a := getcol sa (v vs 0) in
+    let parts0 := tl vs in
+    obz (Nat.eqb (length parts0) (length outs) &&
+         forallb (fun q => let i := fst (fst q) in let d0 := snd (fst q) in let d1 := snd q in
+                    let rsi := with_size rs (Z.to_nat (ex ps i)) in
+                    let r0 := getcol rsi d0 in
+                    eq_list d1 (putcol rsi d0 (build (length r0) (fun j =>
+                       if Nat.ltb j (length a) then subsample n (monomial_mul w (- Z.of_nat i) (lnth a j)) else zlimb n))))
+                 (combine (combine (seq 0 (length parts0)) parts0) outs))
+  else if code =? 9024 then
+    let parts := map (fun q => getcol (with_size sa (Z.to_nat (ex ps (fst q)))) (snd q)) (combine (seq 0 (length (tl vs))) (tl vs)) in
+    let r0 := getcol rs (v vs 0) in
+    obz (eq_list (v outs 0) (putcol rs (v vs 0) (build (length r0) (fun j =>
+          interleave n (map (fun pl => lz (s_n sa) pl j) parts)))))
   else if code =? 9022 then
     let parts := map (getcol sa) (tl vs) in let r0 := getcol rs (v vs 0) in
     obz (eq_list (v outs 0) (putcol rs (v vs 0) (build (length r0) (fun j =>
